@@ -62,7 +62,7 @@ func (c16) Build(tier string, seed uint64) []any {
 	th := tier == "thorough"
 	per := 6
 	if th {
-		per = 60
+		per = 600
 	}
 	k := 0
 	add := func(c *c16Case) { cs = append(cs, c) }
